@@ -109,7 +109,9 @@ def bounds(tier):
                              else "all 4-point lattice sets x displacements +-m2 x 5 listed triples"),
         "homolog_sequences": ("peptides {ALA,GLY,SER}^2..4 both sides" if tier == "thorough" else
                               "peptides {ALA,GLY,SER}^2..3 both sides + {ALA,SER}^4 both sides")
-                             + "; nucleotides {A,DA}^2..4 both sides; two-chain peptides ({A,G,S}^2)^2",
+                             + "; nucleotides {A,DA}^2..4 both sides; two-chain peptides ({A,G,S}^2)^2; two-chain "
+                               "sub-structure copies: (permutations of A,G,S)^2 x each mobile chain {full, first residue "
+                               "dropped, last residue dropped}",
         "tolerances": {"coord_rel": 1e-5, "orthonormal": 1e-5, "perturbation": [0.02, 0.02]},
     }
 
@@ -134,8 +136,11 @@ def build(desc, items=None):
     items = expand(desc) if items is None else items
     mob = np.empty((len(items),) + F.shape, dtype=np.float64)
     trans = np.array(desc["trans"], dtype=np.float64)
+    bn = desc.get("base_noise")
     for k, (g, t, nz) in enumerate(items):
         X = F.copy()
+        if bn:
+            X[bn[0], bn[1]] += bn[2]
         if nz is not None:
             X[nz[0], nz[1]] += nz[2]
         mob[k] = X @ sp.ROT24_F[g].T + trans[t]
@@ -612,7 +617,13 @@ def run_outlier_batch(ctx, desc, focus=None):
             ref, amb = sp.outlier_reference(F, mobile, ma, mi, q, thr)
             if amb:
                 ctx.count("unspecified")
-            elif ref != anchors.tolist():
+                if not set(anchors.tolist()) <= set(ref):
+                    ctx.violation("superimpose_without_outliers|anchors_not_within_documented_prefix|" + cls0,
+                                  "anchors contain an atom the documented iteration had already removed before "
+                                  "its first ambiguous decision", ccase, expected=ref, observed=anchors)
+            elif ref == anchors.tolist():
+                ctx.count("documented_loop_agreed")
+            else:
                 ctx.violation("superimpose_without_outliers|anchors_differ_from_documented_loop|" + cls0,
                               "anchor set differs from the documented iteration (decision margins > 1e-3)",
                               ccase, expected=ref, observed=anchors)
@@ -696,9 +707,10 @@ def _residue(name):
     return _RES[name]
 
 
-def build_chains(chains, hetero=False):
-    """chains: list of residue-name lists -> AtomArray (chain ids A, B, ...; optional hetero tail in chain Z)."""
-    key = (json.dumps(chains), hetero)
+def build_chains(chains, hetero=False, pos=None):
+    """chains: list of residue-name lists -> AtomArray (chain ids A, B, ...; optional hetero tail in chain Z).
+    pos: per chain the indices into POS where the residues sit (default: consecutive)."""
+    key = (json.dumps(chains), hetero, json.dumps(pos))
     if key in _PEPS:
         return _PEPS[key].copy()
     parts = []
@@ -708,7 +720,7 @@ def build_chains(chains, hetero=False):
             r = _residue(nm).copy()
             r.res_id[:] = ri + 1
             r.chain_id[:] = "AB"[ci]
-            r.coord = r.coord + np.array(POS[gi], dtype=np.float32)
+            r.coord = r.coord + np.array(POS[gi if pos is None else pos[ci][ri]], dtype=np.float32)
             parts.append(r)
             gi += 1
     if hetero:
@@ -771,7 +783,7 @@ def run_homolog_case(ctx, case):
 
     fch, mch, ma = case["f"], case["m"], case["ma"]
     fixed = build_chains(fch, case.get("hetero", False))
-    base = build_chains(mch)
+    base = build_chains(mch, pos=case.get("mpos"))
     geos = case["geo"] if isinstance(case["geo"], list) else [case["geo"]]
     mobs = [move(base, g) for g in geos]
     mobile = mobs[0] if not case.get("stack") else struc.stack(mobs)
@@ -851,6 +863,19 @@ def run_homolog_case(ctx, case):
                       case)
     judge(ctx, "superimpose_homologs", cls + "/anchors", case, np.broadcast_to(Fx[:, fi], (mm, len(fi), 3)),
           np.broadcast_to(M[:, mi], (mm, len(mi), 3)).copy(), None, fit[:, mi], R, ct, tt, mat, selfcheck=False)
+    if case.get("mpos") is not None:
+        # mobile is an exact rigid copy of a sub-structure of fixed (residue at POS[k] <-> residue at POS[k]); the
+        # sequences have one unambiguous alignment, so the common residues must end up superimposed
+        fpos = [k for k in range(sum(map(len, fch)))]
+        mposl = [k for ch in case["mpos"] for k in ch]
+        fa_l, mb_l = sorted(fa), sorted(mb)
+        pairs = [(fa_l[fpos.index(k)], mb_l[j]) for j, k in enumerate(mposl) if k in fpos]
+        pf, pm = [a for a, _ in pairs], [b for _, b in pairs]
+        rr = sp.rmsd(Fx[:, pf], fit[:, pm])
+        if np.any(rr > 1e-5 * (1 + np.max(np.abs(Fx)) + np.max(np.abs(M)))):
+            ctx.violation("superimpose_homologs|exact_copy_not_superimposed|" + cls,
+                          "mobile is a rigid copy of a sub-structure but its residues do not land on their originals",
+                          case, expected=0.0, observed=rr)
     ctx.outcome(("hom", fi.tolist(), mi.tolist()))
     if len(ctx.samples) < 1 and len(fi) >= 3:
         ctx.sample({**case, "fixed_anchors": fi.tolist(), "mobile_anchors": mi.tolist()})
@@ -885,6 +910,17 @@ def homolog_cases(shard, tier):
             for m2 in itertools.product(PEP, repeat=2):
                 out.append({"kind": "homolog", "f": fch, "m": [list(m1), list(m2)], "geo": 1, "ma": 2, "mi": None})
         out.append({"kind": "homolog", "f": fch, "m": [fch[0] + fch[1]], "geo": 1, "ma": 2, "mi": None})
+    elif fam == "sub":
+        full = [[0, 1, 2], [3, 4, 5]]
+        for v1 in range(3):
+            for v2 in range(3):
+                ms, mp = [], []
+                for ch, v, ps in ((fch[0], v1, full[0]), (fch[1], v2, full[1])):
+                    sl = slice(None) if v == 0 else (slice(1, None) if v == 1 else slice(None, -1))
+                    ms.append(ch[sl])
+                    mp.append(ps[sl])
+                for mi in (None, 1):
+                    out.append({"kind": "homolog", "f": fch, "m": ms, "mpos": mp, "geo": 0, "ma": 3, "mi": mi})
     elif fam == "cross":
         for ms in [list(s) for k in (2, 3) for s in itertools.product(NUC, repeat=k)]:
             out.append({"kind": "homolog", "f": fch, "m": [ms], "geo": 1, "ma": 2, "mi": None})
@@ -958,6 +994,10 @@ def shards(tier, seed):
         out.append({"kind": "homolog", "fam": "two", "f": [["SER", "ALA"], list(s1)]})
     for s in (["ALA", "GLY", "SER"], ["SER", "SER"]):
         out.append({"kind": "homolog", "fam": "cross", "f": [s]})
+    perms = [list(x) for x in itertools.permutations(PEP)]
+    for c1 in perms:
+        for c2 in perms:
+            out.append({"kind": "homolog", "fam": "sub", "f": [c1, c2]})
     # heavy first
     weight = {"fit": 0, "outlier": 1, "shape": 2, "homolog": 3}
     out.sort(key=lambda s: (weight[s["kind"]], 0 if s.get("size") in (4, 5) else 1))
@@ -1027,7 +1067,8 @@ def outlier_descs(shard, tier, seed):
         motions = [list(x) for x in (M6 if th else M6[1:3])] if big else [[8, 2]]
         prm = [list(p) for p in outlier_params(n, big or th)]
         mg = list(mags) + [3.0] if big else (list(mags) if th else [mags[1]])
-        yield {"kind": "outlier", "fixed": F, "trans": trans, "mags": mg,
+        # a second, small displacement on the last atom keeps the remainder generic after the outlier is gone
+        yield {"kind": "outlier", "fixed": F, "trans": trans, "mags": mg, "base_noise": [n - 1, 1, 0.375],
                "rots": [], "motions": motions, "params": prm, "stack": False}
         if big:
             yield {"kind": "outlier", "fixed": F, "trans": trans, "mags": list(mags), "rots": [],
